@@ -68,7 +68,7 @@ type sim struct {
 	fresh   int
 	failed  bool
 	// cross-chain DEX ledger
-	executed map[string]uint64 // origin-chain order id -> receipt the counter chain recorded
+	executed map[string][]uint64 // origin-chain order id -> receipts the counter chain recorded (more than one only if it executed the order again)
 	settled  map[string]bool
 	fellBack map[string]bool
 	maxAmt   uint64
@@ -856,17 +856,20 @@ func (s *sim) judge(chain string, in *c20util.BlockInput) bool {
 			continue
 		}
 		key := fmt.Sprintf("%d>%d/%x", x.Chain, self, x.ID)
-		if first, dup := s.executed[key]; dup {
+		if prior, dup := s.executed[key]; dup {
 			cause := "other"
 			if rep.Stats["liveness_fallbacks"] > 0 {
 				cause = "liveness-fallback-replays-counter-batch"
 			}
-			probs = append(probs, c20util.Problem{Kind: "dex-order-executed-twice cause=" + cause, Detail: fmt.Sprintf("order %s (sold %d, escrowed once on chain %d) was executed a second time by chain %d: paid %d before and %d now to %x", key, x.Sold, x.Chain, self, first, x.Receipt, x.Addr)})
-			if first != 0 && x.Receipt != 0 {
-				s.run.Count("dex_orders_paid_twice", 1)
+			probs = append(probs, c20util.Problem{Kind: "dex-order-executed-twice cause=" + cause, Detail: fmt.Sprintf("order %s (sold %d, escrowed once on chain %d) was executed again by chain %d: paid %v before and %d now to %x", key, x.Sold, x.Chain, self, prior, x.Receipt, x.Addr)})
+			for _, p := range prior {
+				if p != 0 && x.Receipt != 0 {
+					s.run.Count("dex_orders_paid_twice", 1)
+					break
+				}
 			}
 		}
-		s.executed[key] = x.Receipt
+		s.executed[key] = append(s.executed[key], x.Receipt)
 		if s.fellBack[key] && x.Receipt != 0 {
 			s.run.Count("orders_refunded_by_fallback_and_paid_by_counter_chain", 1)
 		}
@@ -885,13 +888,22 @@ func (s *sim) judge(chain string, in *c20util.BlockInput) bool {
 		if x.Fallbck {
 			s.fellBack[key] = true
 			s.run.Count("dex_orders_refunded_by_liveness_fallback", 1)
-			if r, ok := s.executed[key]; ok && r != 0 {
-				s.run.Count("orders_refunded_by_fallback_and_paid_by_counter_chain", 1)
+			for _, r := range s.executed[key] {
+				if r != 0 {
+					s.run.Count("orders_refunded_by_fallback_and_paid_by_counter_chain", 1)
+					break
+				}
 			}
 			continue
 		}
-		if r, ok := s.executed[key]; !ok || r != x.Bought {
-			probs = append(probs, c20util.Problem{Kind: "dex-settlement-differs-from-counter-chain-execution", Detail: fmt.Sprintf("order %s settled with receipt %d, the counter chain recorded %d (executed=%v)", key, x.Bought, r, ok)})
+		// the receipt used must be one the counter chain recorded when it executed the order (it is more than one only
+		// after a repeated execution, which is reported on its own)
+		match := false
+		for _, r := range s.executed[key] {
+			match = match || r == x.Bought
+		}
+		if !match {
+			probs = append(probs, c20util.Problem{Kind: "dex-settlement-differs-from-counter-chain-execution", Detail: fmt.Sprintf("order %s settled with receipt %d, the counter chain recorded %v", key, x.Bought, s.executed[key])})
 		}
 	}
 	for _, sh := range rep.Shapes {
@@ -1004,7 +1016,7 @@ func eventsOf(r *lib.BlockResult) []string {
 func newSim(t *testing.T, run *core.Run, name, kind string, scale int, rng *rand.Rand) *sim {
 	return &sim{t: t, run: run, name: name, kind: kind, scale: scale, rng: rng, keyOf: map[string]crypto.PrivateKeyI{}, exempt: map[string]bool{},
 		nestQCs: map[uint64]*lib.QuorumCertificate{}, rootQCs: map[uint64]*lib.QuorumCertificate{}, ops: map[string][]string{},
-		executed: map[string]uint64{}, settled: map[string]bool{}, fellBack: map[string]bool{}}
+		executed: map[string][]uint64{}, settled: map[string]bool{}, fellBack: map[string]bool{}}
 }
 
 // open builds the two chains and takes the first scans.
